@@ -268,8 +268,15 @@ def run_sharded(cases, tag, profile="debug", want_model=True):
         impl.update(run_cli_cases([c for c in ccases if c.split("\t")[1] == "C"], tag, profile))
         tcases = [c for c in ccases if c.split("\t")[1] == "T"]
         if tcases:
+            def safe(c):
+                for attempt in range(2):
+                    try:
+                        return run_tcp_case(c.split("\t"), profile)
+                    except OSError as e:
+                        err = e
+                return ("harness-error", str(err))
             with ThreadPoolExecutor(max_workers=8) as ex:
-                for c, r in zip(tcases, ex.map(lambda c: run_tcp_case(c.split("\t"), profile), tcases)):
+                for c, r in zip(tcases, ex.map(safe, tcases)):
                     impl[c.split("\t")[0]] = r
         if want_model:
             _, m2, e2 = run_sharded_(ccases, tag + "c", profile, True, want_impl=False)
@@ -324,7 +331,11 @@ CLEAR = b"\x1b[2J\x1b[H\x1b[3J"
 
 
 def cli_args(opts_s, path):
-    a = ["-s", path, "--update=-1"]
+    upd = "-1"
+    for kv in opts_s.split(","):
+        if kv.startswith("u="):
+            upd = kv[2:]
+    a = ["-s", path, "--update=" + upd]
     have_o = False
     for kv in opts_s.split(","):
         if "=" not in kv:
@@ -439,12 +450,20 @@ def run_tcp_case(parts, profile="debug"):
     srv = None
 
     def listen():
-        ls = socket.socket()
-        ls.setsockopt(socket.SOL_SOCKET, socket.SO_REUSEADDR, 1)
-        ls.bind(("127.0.0.1", port))
-        ls.listen(4)
-        ls.settimeout(9.0)
-        return ls
+        last = None
+        for attempt in range(20):
+            ls = socket.socket()
+            ls.setsockopt(socket.SOL_SOCKET, socket.SO_REUSEADDR, 1)
+            try:
+                ls.bind(("127.0.0.1", port))
+                ls.listen(4)
+                ls.settimeout(9.0)
+                return ls
+            except OSError as e:
+                last = e
+                ls.close()
+                time.sleep(0.1)
+        raise last
 
     first = events[0][0] if events else 0
     if first != 3:
@@ -479,6 +498,15 @@ def run_tcp_case(parts, profile="debug"):
                 c.sendall(data)
                 time.sleep(0.3)
                 c.close()
+            elif typ == 6:
+                # healthy connection whose last line (the sentinel) arrives 5.3 s later: with --update 2 the
+                # refresh triggered by it shows the table as it is after the first sweep of this connection
+                lines = data.split(b"\n")
+                c.sendall(b"\n".join(lines[:-2]) + b"\n")
+                time.sleep(5.3)
+                c.sendall(lines[-2] + b"\n")
+                keep.append(c)
+                time.sleep(0.6)
             elif typ == 2:
                 # complete lines first, then a partial line, then a reset
                 c.sendall(data)
